@@ -41,7 +41,9 @@ class FortranRegularExpressions:
     END_SMOD: Pattern = compile(r"SUBMODULE", I)
     END_PRO: Pattern = compile(r"(MODULE)?[ ]*PROCEDURE", I)
     BLOCK: Pattern = compile(
-        r"[ ]*([a-z_]\w*[ ]*:[ ]*)?(?:BLOCK(?:[ ]*DATA)?|CRITICAL)(?!\w)", I
+        r"[ ]*([a-z_]\w*[ ]*:[ ]*)?"
+        r"(?:BLOCK(?:[ ]*DATA(?!\w).*)?|CRITICAL(?:[ ]*\(.*\))?)[ ]*(?:!.*)?$",
+        I,
     )
     END_BLOCK: Pattern = compile(r"BLOCK|CRITICAL", I)
     DO: Pattern = compile(r"[ ]*(?:[a-z_]\w*[ ]*:[ ]*)?DO([ ]+[0-9]*|$)", I)
@@ -66,7 +68,7 @@ class FortranRegularExpressions:
     INT: Pattern = compile(r"[ ]*(ABSTRACT)?[ ]*INTERFACE[ ]*(\w*)", I)
     END_INT: Pattern = compile(r"INTERFACE", I)
     END_WORD: Pattern = compile(
-        r"[ ]*END[ ]*(DO|WHERE|IF|BLOCK|CRITICAL|ASSOCIATE|SELECT"
+        r"[ ]*END(?![ ]*FILE(?!\w))[ ]*(DO|WHERE|IF|BLOCK|CRITICAL|ASSOCIATE|SELECT"
         r"|TYPE|ENUM|MODULE|SUBMODULE|PROGRAM|INTERFACE"
         r"|SUBROUTINE|FUNCTION|PROCEDURE|FORALL)?([ ]+(?!\W)|$)",
         I,
